@@ -135,10 +135,11 @@ Definition case_ok (c : case) : bool :=
       end
   | CResolve t path follow obs => robs_ok (k_walk t [] path follow) obs
   | CExpandT t dest name s failed after =>
-      let '(t', e) := run_expand t dest name s in Bool.eqb e failed && tree_matches t' after
+      let '(t', e) := run_expand t dest name s in
+      Bool.eqb e failed && tree_matches t' after && new_links_inside t dest after
   | CExtractT t dest s failed after =>
       let r := extract_model t dest s in
-      Bool.eqb (is_some (snd r)) failed && tree_matches (fst r) after
+      Bool.eqb (is_some (snd r)) failed && tree_matches (fst r) after && new_links_inside t dest after
   | CLockT t chartpath legacy data failed after =>
       let r := write_lock_t t [] chartpath legacy data in
       Bool.eqb (is_some (snd r)) failed && tree_matches (fst r) after
